@@ -106,6 +106,7 @@ class Ctx:
         self.t0 = time.time()
         self.evaluations = 0
         self._distinct: set = set()
+        self.distinct_extra = 0   # distinct cases counted in bulk (exhaustive sweeps), not hashed one by one
         self.samples: List[Any] = []
         self.hist: Dict[str, int] = {}
         self.violations: List[Dict[str, Any]] = []  # oracle failures (not known)
@@ -137,7 +138,7 @@ class Ctx:
 
     @property
     def distinct_nontrivial(self) -> int:
-        return len(self._distinct)
+        return len(self._distinct) + self.distinct_extra
 
     # -- verdicts
     def violation(self, key: str, what: str, case: Any, observed: Any = None) -> None:
